@@ -575,6 +575,7 @@ static void run(void)
     bool longidle = strcmp(scen, "longidle") == 0;
     bool accblk = strcmp(scen, "accblk") == 0;
     bool accfail = strcmp(scen, "accfail") == 0;
+    bool uxfull = strcmp(scen, "uxfull") == 0;
     static const int accerrs[] = { EMFILE, ENFILE, ENOMEM, ENOBUFS };
     acc_fail_errno = accfail ? accerrs[(seq >> 1) % 4] : 0;
     /* badski (tls-based): one side presents a self-signed certificate the other side does not trust, whose
@@ -586,7 +587,7 @@ static void run(void)
     bool ski_on_server = badski && (seq & 1);
     bool normal = strcmp(scen, "normal") == 0 || ctlflood || garbage2 || longidle || accfail || ctl3, refused = strcmp(scen, "refused") == 0,
 	 silent = strcmp(scen, "silent") == 0, release = strcmp(scen, "release") == 0,
-	 mute = strcmp(scen, "mute") == 0, garbage = strcmp(scen, "garbage") == 0, idle = strcmp(scen, "idle") == 0 || accblk;
+	 mute = strcmp(scen, "mute") == 0, garbage = strcmp(scen, "garbage") == 0, idle = strcmp(scen, "idle") == 0 || accblk || uxfull;
     int up = 1;
     bool utlst = strcmp(tp, "utlst") == 0;	/* a utls client of a plain tls server: no UX socket there, the TLS leg is used */
     const char *proto = utlst ? "tls" : tp;
@@ -689,6 +690,28 @@ static void run(void)
     bool released = false, rclosed = false, rgarb = false;
     int cond[4] = { 0, -1, -1, XCM_SO_ACCEPTABLE };
     int idle_probes = 0;
+
+    /* uxfull (ux, uxf, utls): the server never accepts; non-blocking connects are made until well after its AF_UNIX accept
+       queue is full.  Every one of them returns at once - a connection, or EAGAIN - whatever the state of the queue
+       (op "cx"; the sockets are closed again at the end of the block) */
+    if (uxfull && so[3]) {
+	struct xcm_socket *xs[48];
+	int nx = 0;
+	for (int i = 0; i < 48; i++) {
+	    struct xcm_attr_map *xa = nb_attrs();
+	    CALL_BEGIN(1);
+	    struct xcm_socket *c = xcm_connect_a(saddr, xa);
+	    int cerr = errno;
+	    CALL_END();
+	    int cw = shim_wait_seen();
+	    xcm_attr_map_destroy(xa);
+	    emit("cx", 1, c ? 0 : -1, c ? 0 : cerr, 0, cw);
+	    if (c)
+		xs[nx++] = c;
+	}
+	for (int i = 0; i < nx; i++)
+	    xcm_close(xs[i]);
+    }
 
     /* accblk: the server socket is non-blocking; a raw client connects and says nothing (no ClientHello on the TLS
        transports); the application accepts it with xcm.blocking = true in the accept map.  The call is one on a
